@@ -209,6 +209,19 @@ class RefEvaluator:
             cont = expr._container
             if isinstance(cont, DictOfNamedArrays):
                 return self(cont._data[expr.name])
+            from pytato.function import Call
+            from pytato.loopy import LoopyCall
+            if isinstance(cont, Call):
+                # evaluate the function body with its parameters bound
+                sub = RefEvaluator({k: self(v) for k, v in cont.bindings.items()},
+                                   None, forbid_comm=True)
+                return sub(cont.function.returns[expr.name])
+            if isinstance(cont, LoopyCall):
+                # the harness's own kernels, by name (the kernel text itself is
+                # executed for real only in the shadow runs)
+                if cont.entrypoint == "twice" and expr.name == "out":
+                    return 2 * self(cont.bindings["a"])
+                raise NotImplementedError(f"loopy kernel {cont.entrypoint}")
             raise NotImplementedError(type(cont).__name__)
         if isinstance(expr, DistributedRecv):
             if self.forbid_comm:
